@@ -29,7 +29,8 @@ from functools import partial
 from struct import pack, unpack, unpack_from
 
 from .ebpf import (
-    AssembleError, Expression, Opcode, Map, FuncId, ensure_expression)
+    AssembleError, Expression, Opcode, Map, FuncId, Temporary,
+    ensure_expression)
 from .bpf import (
     MapType, UpdateFlags, create_map, delete_elem, get_next_key, lookup_elem,
     lookup_and_delete_elem, update_elem)
@@ -223,6 +224,11 @@ class TheDict(MutableMapping):
     @contextmanager
     def lookup(self):
         ebpf = self.ebpf
+        if any(isinstance(v, Temporary) and v.no == 0
+               for v in ebpf.__dict__.values()):
+            # the looked up value is addressed via r0 during the block
+            raise AssembleError(
+                "a temporary lives in r0, cannot look up a value")
         with ebpf.save_registers([1, 2, 3, 4, 5]):
             ebpf.r1 = ebpf.get_fd(self.fd)
             ebpf.r2 = ebpf.r10 + self.key.addr_offset
